@@ -396,6 +396,16 @@ def scenarios(tier):
         S.append(mk("sched-tamper1-victim1", sched_cfg((1,), 1, (1,), mode="deferred"), max_depth=100, max_states=4000000))
         S.append(mk("sched-tamper2-dev3", sched_cfg((0, 1), 2, (0, 1)), dev_bound=3, max_depth=200))
         S.append(mk("sched-reorder1-tamper1-victim0", sched_cfg((0,), 1, (0,), reorder=1), max_depth=100, max_states=4000000))
+    # replay by an honest mechanism: after a reconnect the server hands over the whole mailbox again (and may duplicate a message);
+    # nothing may be delivered to the application a second time
+    rc = sched_cfg((0,), 0, (0,))
+    rc["clients"][0]["drops"] = 1
+    rc["dup"] = 1
+    rc["explored"] = ("down", "up", "api", "connect", "drop", "dup")
+    if tier == "quick":
+        S.append(mk("sched-reconnect-replay-dup-victim0-dev3", rc, dev_bound=3, max_depth=200))
+    else:
+        S.append(mk("sched-reconnect-replay-dup-victim0", rc, max_depth=120, max_states=4000000))
     return S
 
 
